@@ -100,6 +100,21 @@ theorem aux_crossSingletonStaticRun_length (st : Option Val) (as ss : List Batch
     | nil => simp at h
     | cons s ss => simp [crossSingletonStaticRun, ih _ ss (by simpa using h)]
 
+theorem aux_reduceNoReplayRun_length (f : Val → Val → Val) (fst : Bool) (s : Option Val) (bs : List Batch) :
+    (reduceNoReplayRun f fst s bs).length = bs.length := by
+  induction bs generalizing fst s with
+  | nil => simp [reduceNoReplayRun]
+  | cons b bs ih => simp [reduceNoReplayRun, ih]
+
+theorem aux_staticSideRun_length (g : List Val → List Val → List Val) (st : List Val) (as bs : List Batch)
+    (h : as.length = bs.length) : (staticSideRun g st as bs).length = as.length := by
+  induction as generalizing st bs with
+  | nil => cases bs <;> simp [staticSideRun]
+  | cons a as ih =>
+    cases bs with
+    | nil => simp at h
+    | cons b bs => simp [staticSideRun, ih _ bs (by simpa using h)]
+
 /-- every operator emits exactly one (possibly empty) batch per tick -/
 theorem aux_run_length (t : Term) (ins : List TickIn) : (run t ins).length = ins.length := by
   induction t with
@@ -115,6 +130,9 @@ theorem aux_run_length (t : Term) (ins : List TickIn) : (run t ins).length = ins
   | foldB i f t ih => simp [run, aux_foldNoReplayRun_length, ih]
   | crossSingleton t s iht ihs =>
     simp [run, aux_crossSingletonStaticRun_length _ _ _ (iht.trans ihs.symm), iht]
+  | reduceB f t ih => simp [run, aux_reduceNoReplayRun_length, ih]
+  | joinHalfS t b iht ihb | antiJoinS t b iht ihb | differenceS t b iht ihb =>
+    simp [run, aux_staticSideRun_length _ _ _ _ (iht.trans ihb.symm), iht]
 
 /-- how the emitted batches `outs` (one per tick) relate to the stream-level value `s`, per kind -/
 def Agrees (k : Kind) (outs : List Batch) (s : List Val) : Prop :=
